@@ -1551,7 +1551,17 @@ class DiameterMessage:
 
 
     def __setitem__(self, idx: int, value: DiameterAVP) -> None:
+        old = self._avps[idx]
         self._avps[idx] = value
+
+        #: The attribute that referred to the replaced DiameterAVP object now
+        #: refers to the new one, and the length follows the new content.
+        for key, item in self.__dict__.items():
+            if item is old and key != "_avps":
+                self.__dict__[key] = value
+                break
+
+        self.refresh()
 
 
     @property
@@ -1719,14 +1729,11 @@ class DiameterMessage:
 
         _avp_class = loader.get_avp_class(avp)
 
-        setattr(self, avp_name, _avp_class(avp_value))
-        self[index] = _avp_class(avp_value)
+        new_avp = _avp_class(avp_value)
+        new_avp.flags = avp.flags
+        new_avp.vendor_id = avp.vendor_id
 
-        new_avp_att = getattr(self, avp_name)
-        new_avp_arr = self[index]
-
-        new_avp_att.flags = new_avp_arr.flags = avp.flags
-        new_avp_att.vendor_id = new_avp_arr.vendor_id = avp.vendor_id
+        self[index] = new_avp
 
 
 class DiameterRequest(DiameterMessage):
